@@ -672,6 +672,10 @@ func checkTemplatePositions(res *hx.Result, def []byte, fail func(class, detail 
 					// the step left a template that mentions @webhook as it was: which member (indices dropped)
 					class = "13.3-template-not-rewritten:" + memberPath(p.path)
 				}
+				if where == "localization" && p.after != rename133(p.before) && p.after == rename133(rename133(p.before)) {
+					// the rewrite is not idempotent: applied twice it points below webhook.json.json
+					class = "13.3-translation-rewritten-twice:" + p.prop
+				}
 				if prop, ok := translationWithoutBase(ma, p.item, p.prop); ok {
 					// RewriteTemplates reaches translations only through the base member they translate
 					class = "13.3-translation-without-base-not-rewritten:" + prop
